@@ -20,7 +20,7 @@ QUERIES = [
     Query("xonly_codec", "C03/h_pub.c", "harness_xonly", unwind=82, timeout=600,
           desc="xonly_pubkey_parse/serialize for all 32-byte strings"),
 ]
-for fl, tier in ((131, "quick"), (75, "thorough"), (130, "thorough"), (132, "thorough"), (200, "thorough"), (255, "thorough")):
+for fl, tier in ((131, "quick"), (75, "thorough"), (129, "thorough"), (132, "thorough"), (200, "thorough")):
     QUERIES.append(Query("der_parse_fix%d" % fl, D, "harness_der_parse", defs=["MAXLEN=%d" % fl, "FIXLEN=%d" % fl], unwind=fl + 6, timeout=2400, tier=tier, mem_gb=8,
                          desc="DER parser differential vs the strict-DER reference for ALL inputs of exactly %d bytes (long-form 0x81 lengths, integers longer than 32 bytes => accepted with value 0)" % fl, bounds="len = %d" % fl))
 LEVEL_TEXT = ("Bit-precise bounded model checking (CBMC + kissat) of the real parsers/serializers for ALL byte strings up to the stated length: "
